@@ -165,6 +165,10 @@ class Potential_Form_Registry(object):
       if name.startswith("_"):
         continue
       label = "{}.{}".format(namespace, name)
+      # formulas resolve function names case-insensitively: there 'PYMATH.FLOOR' would be this function, not the form
+      clash = self._case_clash(label, list(self._potential_forms))
+      if clash:
+        raise Potential_Form_Registry_Exception("Potential form labels must differ by more than case: '{0}' and the function '{1}'".format(clash, label))
       d = make_potential_form_tuple_from_function(label, pyfunc)
       func = _Python_Potential_Function(d, pyfunc)
       new_mathfuncs.append(func)
